@@ -159,6 +159,105 @@ impl<'a> Shrinker<'a> {
                 break;
             }
         }
+        // finally drop the contents nothing refers to any more (pure renumbering, then re-checked)
+        let pruned = prune_contents(&cur);
+        if pruned.contents.len() < cur.contents.len() && self.fails(&pruned) {
+            cur = pruned;
+        }
         cur
     }
+}
+
+/// Remove contents that no file, operation, typed base or fault refers to, renumbering the rest.
+pub fn prune_contents(sc: &Scenario) -> Scenario {
+    use crate::scn::{Content, Fault};
+    let n = sc.contents.len();
+    let mut used = vec![false; n];
+    let mut mark = |i: usize, used: &mut Vec<bool>| {
+        if i < n {
+            used[i] = true;
+        }
+    };
+    for f in &sc.files {
+        mark(f.cid, &mut used);
+        if let Some(p) = f.prev {
+            mark(p, &mut used);
+        }
+    }
+    for a in &sc.actors {
+        for op in &a.ops {
+            match op {
+                Op::Decode { cid, fault, .. } => {
+                    mark(*cid, &mut used);
+                    if let Some(Fault::Torn(c, _)) = fault {
+                        mark(*c, &mut used);
+                    }
+                }
+                Op::Install { cid, .. } | Op::BeginUpgrade { cid, .. } | Op::AtomicReplace { cid, .. } => mark(*cid, &mut used),
+                _ => {}
+            }
+        }
+    }
+    for f in sc.faults.values() {
+        if let Fault::Torn(c, _) = f {
+            mark(*c, &mut used);
+        }
+    }
+    // typed contents keep their base alive
+    loop {
+        let mut changed = false;
+        for (i, c) in sc.contents.iter().enumerate() {
+            if used[i] {
+                if let Content::Typed { base, .. } = c {
+                    if *base < n && !used[*base] {
+                        used[*base] = true;
+                        changed = true;
+                    }
+                }
+            }
+        }
+        if !changed {
+            break;
+        }
+    }
+    let mut map = vec![0usize; n];
+    let mut k = 0;
+    for i in 0..n {
+        map[i] = k;
+        if used[i] {
+            k += 1;
+        }
+    }
+    let mut out = sc.clone();
+    out.contents = sc.contents.iter().enumerate().filter(|(i, _)| used[*i]).map(|(_, c)| c.clone()).collect();
+    let re = |i: usize| if i < n { map[i] } else { i };
+    for c in out.contents.iter_mut() {
+        if let Content::Typed { base, .. } = c {
+            *base = re(*base);
+        }
+    }
+    for f in out.files.iter_mut() {
+        f.cid = re(f.cid);
+        f.prev = f.prev.map(re);
+    }
+    for a in out.actors.iter_mut() {
+        for op in a.ops.iter_mut() {
+            match op {
+                Op::Decode { cid, fault, .. } => {
+                    *cid = re(*cid);
+                    if let Some(Fault::Torn(c, _)) = fault {
+                        *c = re(*c);
+                    }
+                }
+                Op::Install { cid, .. } | Op::BeginUpgrade { cid, .. } | Op::AtomicReplace { cid, .. } => *cid = re(*cid),
+                _ => {}
+            }
+        }
+    }
+    for f in out.faults.values_mut() {
+        if let Fault::Torn(c, _) = f {
+            *c = re(*c);
+        }
+    }
+    out
 }
